@@ -234,7 +234,7 @@ def add_obligations(pack, ss, tier, pid='C02'):
                'md5 separates different feeds (collisions and concatenation ambiguity are not modelled); the generator reads no declared '
                'field besides those named in the contract of Model.get_md5 (v_str, v_iter, e_str, diag_eps, service v_str / sequential, '
                'exported flags, names)')
-    run_contracts(pack, [(fg_update(pid, 'f'), None, replay_fg_update('f')), (fg_update(pid, 'g'), None, replay_fg_update('g')), (refresh_inputs_arg(pid),), (find_stale(pid), None, replay_find_stale), (undill(pid), None, replay_find_stale), (generate_pycode_tail(pid),), (get_md5(pid), None, replay_get_md5), (refresh_inputs(pid), None, replay_refresh_inputs)])
+    run_contracts(pack, [(fg_update(pid, 'f'), None, replay_fg_update('f')), (fg_update(pid, 'g'), None, replay_fg_update('g')), (refresh_inputs_arg(pid), None, replay_inputs_arg), (find_stale(pid), None, replay_find_stale), (undill(pid), None, replay_find_stale), (generate_pycode_tail(pid),), (get_md5(pid), None, replay_get_md5), (refresh_inputs(pid), None, replay_refresh_inputs)])
     # the one non-numpy function the generated modules call: it must mean what the expression front end takes it to mean
     from contracts import fn_npfunc as NF
     run_contracts(pack, [(NF.safe_div(pid, False), None, NF.replay_safe_div), (NF.safe_div(pid, True), None, NF.replay_safe_div)])
@@ -598,6 +598,32 @@ def replay_refresh_inputs(obligation=None, model=None, meta=None):
 replay_refresh_inputs.real_system = True
 
 
+def _arg_lists_follow_the_name_table(ss, case, phase, n):
+    for mname, m in ss.models.items():
+        if m.n == 0:
+            continue
+        # a list that was never built counts as empty (a model without such calls does not need it)
+        lists = [(k, getattr(m.calls, k), getattr(m, k, ())) for k in ('f_args', 'g_args', 'sns_args')]
+        for key in ('j_args', 's_args', 'ia_args', 'ii_args', 'ij_args'):
+            src = m.calls.__dict__[key]
+            for name in src:
+                lists.append(('%s[%s]' % (key, name), src[name], getattr(m, key, {}).get(name, ())))
+        for label, names, values in lists:
+            where = {'case': case, 'when': phase, 'model': mname, 'list': label}
+            if len(names) != len(values):
+                return {'confirmed': True, 'inputs': where, 'observed': '%d argument names, %d values' % (len(names), len(values)),
+                        'native_cmd': 'contracts/C02_binding.py replay_inputs_arg'}, n
+            for arg, val in zip(names, values):
+                n += 1
+                if val is not m._input[arg]:
+                    live = arg == 'dae_t'
+                    return {'confirmed': True, 'inputs': dict(where, argument=arg),
+                            'observed': 'the entry is not the object filed under this name in the argument table (%s)' % (
+                                'the simulation time would stay frozen for this function' if live else 'a copy or another value: the function no longer sees what changes in place'),
+                            'native_cmd': 'contracts/C02_binding.py replay_inputs_arg'}, n
+    return None, n
+
+
 def replay_inputs_arg(obligation=None, model=None, meta=None):
     """native: after TDS.init every entry of every per-function argument list (f, g, sns, j, s, ia, ii, ij) of every model with devices IS
     the object the name table holds for that argument name -- in particular the live time array for 'dae_t' -- so that values which
@@ -608,31 +634,25 @@ def replay_inputs_arg(obligation=None, model=None, meta=None):
     import andes
     logging.getLogger('andes').setLevel(logging.CRITICAL)
     n = 0
-    for case in ('kundur/kundur_full.xlsx', 'ieee14/ieee14_full.xlsx'):
+    from andes.utils.snapshot import save_ss, load_ss
+    # ieee14_dgprct1: PVD1 carries sequential variable services that read the model's own variables in every iteration
+    for case in ('kundur/kundur_full.xlsx', 'ieee14/ieee14_full.xlsx', 'ieee14/ieee14_dgprct1.xlsx'):
         with contextlib.redirect_stdout(io.StringIO()), contextlib.redirect_stderr(io.StringIO()):
             ss = andes.load(andes.get_case(case), default_config=True, no_output=True)
             ss.PFlow.run()
             ss.TDS.init()
-        for mname, m in ss.models.items():
-            if m.n == 0:
-                continue
-            lists = [('f_args', m.calls.f_args, m.f_args), ('g_args', m.calls.g_args, m.g_args), ('sns_args', m.calls.sns_args, m.sns_args)]
-            for key in ('j_args', 's_args', 'ia_args', 'ii_args', 'ij_args'):
-                src = m.calls.__dict__[key]
-                for name in src:
-                    lists.append(('%s[%s]' % (key, name), src[name], getattr(m, key)[name]))
-            for label, names, values in lists:
-                if len(names) != len(values):
-                    return {'confirmed': True, 'inputs': {'case': case, 'model': mname, 'list': label}, 'observed': '%d argument names, %d values' % (len(names), len(values)),
-                            'native_cmd': 'contracts/C02_binding.py replay_inputs_arg'}
-                for arg, val in zip(names, values):
-                    n += 1
-                    if val is not m._input[arg]:
-                        live = arg == 'dae_t'
-                        return {'confirmed': True, 'inputs': {'case': case, 'model': mname, 'list': label, 'argument': arg},
-                                'observed': 'the entry is not the object filed under this name in the argument table (%s)' % (
-                                    'the simulation time would stay frozen for this function' if live else 'a copy or another value'),
-                                'native_cmd': 'contracts/C02_binding.py replay_inputs_arg'}
+        phases = [('after TDS.init', ss)]
+        if case != 'ieee14/ieee14_full.xlsx':
+            # the same must hold for a system restored from a snapshot: its arrays are new objects and every list has to follow them
+            with contextlib.redirect_stdout(io.StringIO()), contextlib.redirect_stderr(io.StringIO()):
+                buf = io.BytesIO()
+                save_ss(buf, ss)
+                buf.seek(0)
+                phases.append(('after TDS.init, save_ss and load_ss', load_ss(buf)))
+        for phase, sys_ in phases:
+            bad, n = _arg_lists_follow_the_name_table(sys_, case, phase, n)
+            if bad:
+                return bad
     return {'confirmed': False, 'tried': n}
 
 
